@@ -320,6 +320,9 @@ func c05NativeProgram(r *vrt.Rng) (dir, file, src string, gIn, eIn []string, err
 	wa, wb := vrt.Pick(r, []int{1, 3, 8, 8, 16}), vrt.Pick(r, []int{1, 4, 8, 8, 16})
 	wr := vrt.Pick(r, []int{1, 2, 8, 8, 13})
 	sh := refc.Shape{Args: []int{wa, wb}, Outs: []int{wr}, Gates: r.Range(wr+2, 90), Kind: r.Intn(5), SameP: 8, Named: true}
+	if r.Bool() {
+		sh.Kind = 1 // chain: gates prefer the most recent wires, so output wires feed the gates after them
+	}
 	if r.Intn(3) == 0 {
 		sh.Outs = []int{wr, vrt.Pick(r, []int{1, 8})}
 	}
